@@ -22,6 +22,13 @@ normalize=False, a non-unitary evolution and no subtract_E, and that corner must
 whose Krylov solver does not finish; such a run is dropped like a timeout, but the solver's preconditions on the local
 generator (linearity, Hermiticity) are examined first and a violated one is reported as a broken contract, which makes
 `search` look for a concrete failing input next to the abandoned one.
+
+Time-dependent generators (a callable H whose value really changes between sweeps; a callable that returns the same MPO every
+time cannot tell a generator evaluated once from one evaluated before every sweep) meet every method on every seed in two ways:
+(a) the 'order' cases H(t) = Ha + cos(w t) Hb (non-commuting, 4 and 8 time steps, judged by the convergence order against a
+solve_ivp reference) take method x precompute from a balanced deck (order_deck) instead of a free draw of the method;
+(b) two strata of every (method, subtract_E) group of the exact deck get H(t) = g(t) H0 (commuting family, closed-form exact
+evolution), judged by `tdep_exactness` for every u, order, normalize / subtract_E flag, time grid and number of snapshots.
 """
 import math
 import time
@@ -120,8 +127,12 @@ def exact_deck(rng, n):
                 grp = [{"method": m, "subtract_E": s, "normalize": nz, "u_kind": uk} for nz in (False, True) for uk in U_KINDS]
                 rng.shuffle(grp)
                 first = rng.random() < 0.5
+                j = rng.randrange(len(grp) - 1)
                 for i, g in enumerate(grp):
                     g["precompute"] = (i % 2 == 0) == first
+                    # two strata of every (method, subtract_E) group, one with either precompute flag, get a generator that
+                    # really depends on time (H(t) = g(t) H0, see gen_case): 4 per method in every block of 36
+                    g["tdep"] = i in (j, j + 1)
                 if m == "12site":
                     # half of the '12site' strata start from bond dimension 1 on N = 2 (see gen_case): for either normalize flag
                     # one of the two non-unitary kinds of u and, by a coin, the real-time stratum of one of the flags
@@ -190,9 +201,28 @@ def gen_case(rng, quick, kind, st=None):
         "opts_svd": opts_svd,
         "callable_H": rng.random() < 0.35,
         "yield_initial": rng.random() < 0.2,
+        "tdep": None,
         "stratum": "conserve" if st.get("conserve") else ("deck-grow" if grow else "deck" if st else "free"),
     }
+    if kind == "exact" and st.get("tdep"):
+        # time-dependent generator inside the exactness clause: H(t) = g(t) H0 with g(t) = 1 + a sin(w t).  All H(t) commute, so
+        # the exact time-ordered evolution is exp(-u G H0) psi0 with G = int g dt in closed form, and on the full manifold every
+        # sweep is itself exact for the generator it was handed: the result is judged against the exact evolution up to the
+        # quadrature error of a scheme of (at least) 2nd order in dt (oracles(), 'c10:exactness-tdep')
+        case["callable_H"] = True
+        case["tdep"] = {"a": rng.choice([0.5, -0.7, 0.9]), "w": rng.choice([2.0, 3.0, 5.0])}
     return case
+
+
+def tdep_g(td):
+    a, w = td["a"], td["w"]
+    return lambda t: 1.0 + a * math.sin(w * t)
+
+
+def tdep_G(td, t0, t1):
+    """closed form of int_{t0}^{t1} (1 + a sin(w t)) dt"""
+    a, w = td["a"], td["w"]
+    return (t1 - t0) - (a / w) * (math.cos(w * t1) - math.cos(w * t0))
 
 
 def hfac_kind(case):
@@ -297,7 +327,14 @@ def run_tdvp(case, monitor=True, dt=None, order=None):
         psi.factor = 1.5   # a norm different from one must be carried along
     v0 = dense_mps(psi, ops)
     tcalls = []
-    if case["callable_H"]:
+    td = case.get("tdep")
+    if td:
+        g = tdep_g(td)
+
+        def H(t):
+            tcalls.append(float(t))
+            return g(float(t)) * Hs[0] if len(Hs) == 1 else [g(float(t)) * h for h in Hs]
+    elif case["callable_H"]:
         def H(t):
             tcalls.append(float(t))
             return Hstat
@@ -537,6 +574,7 @@ def oracles(ctx, case, res):
         ctx.count("exact:full" if full else "exact:skipped_not_full")
     times = case["times"]
     snaps = times[1:]
+    td = case.get("tdep")   # generator that really depends on time: the clauses stated for time-independent generators are not applied
     real_vecs = vecs[1:] if case["yield_initial"] else vecs
     if case["yield_initial"] and vecs and np.linalg.norm(vecs[0] - v0) > 1e-12 * n0:
         fail("c10:yield-initial", "state changed before the initial snapshot")
@@ -548,10 +586,10 @@ def oracles(ctx, case, res):
         c_full, c_tail = res["canon"][k + (1 if case["yield_initial"] else 0)]
         # the first tensor carries the norm when it is not conserved / not tracked in `factor` (2-site updates): the full test
         # applies to norm-conserving runs, sites 1..N-1 and the absence of a central block always
-        if not c_tail or (real_time and nonbinding and not c_full):
+        if not c_tail or (real_time and nonbinding and not td and not c_full):
             fail("c10:canonical", f"snapshot {k}: state is not canonical towards 'first' (sites>=1 ok: {c_tail}, site 0 ok: {c_full})")
         # conservation laws (real time, Hermitian, time-independent)
-        if real_time and nonbinding:
+        if real_time and nonbinding and not td:
             ctx.count("conservation_checked")
             if abs(nw - n0) > 1e-8 * n0:
                 fail("c10:norm", f"snapshot {k}: norm {n0!r} -> {nw!r} in real-time evolution ({case['method']})")
@@ -561,7 +599,14 @@ def oracles(ctx, case, res):
         elif case["normalize"] and abs(nw - n0) > 1e-8 * n0:
             fail("c10:norm", f"snapshot {k}: normalize=True but the norm changed {n0!r} -> {nw!r}")
         # exactness on the full manifold
-        if full and nonbinding:
+        if full and nonbinding and k == 0:
+            # what the comparison can see: the ray only (subtract_E), the ray and a conserved / restored norm, or a norm
+            # that must FOLLOW |exp(-u t H) psi0| (normalize=False in a non-unitary evolution)
+            sees = "ray_only" if case["subtract_E"] else ("norm_followed" if not (case["normalize"] or real_time) else "norm_kept")
+            ctx.count(f"exact_sees:{sees}:{case['method']}")
+        if full and nonbinding and td:
+            tdep_exactness(ctx, case, res, k, t1, w, Hd, fail)
+        elif full and nonbinding:
             ref = sla.expm(-u * (t1 - times[0]) * Hd) @ v0
             if case["normalize"]:
                 ref = ref / np.linalg.norm(ref) * n0
@@ -573,59 +618,146 @@ def oracles(ctx, case, res):
             else:
                 err = np.linalg.norm(w - ref) / n0
             ctx.count("exactness_checked")
-            if k == 0:
-                # what the comparison can see: the ray only (subtract_E), the ray and a conserved / restored norm, or a norm
-                # that must FOLLOW |exp(-u t H) psi0| (normalize=False in a non-unitary evolution)
-                sees = "ray_only" if case["subtract_E"] else ("norm_followed" if not (case["normalize"] or real_time) else "norm_kept")
-                ctx.count(f"exact_sees:{sees}:{case['method']}")
             if err > 1e-8:
                 fail("c10:exactness", f"snapshot {k} (t={t1}): |psi - expm(-u t H) psi0| = {err!r} at maximal bond dimension "
                      f"({case['method']}, {case['order']}, u={u})")
 
 
+TDEP_MARGIN = 4.0
+
+
+def tdep_exactness(ctx, case, res, k, t1, w, Hd, fail):
+    """H(t) = g(t) H0 at maximal bond dimension (H0 = Hd, the time-independent part).  The generators commute, hence the exact
+    time-ordered evolution is exp(-u G H0) psi0 with G = int_{t0}^{t1} g.  On the full manifold a sweep of (signed) length l that was
+    handed H(tm) applies exp(-u l g(tm) H0) exactly, so the real result is exp(-u G' H0) psi0 with G' = sum l_j g(tm_j), a quadrature
+    of G.  'Converges at the stated order': for midpoint evaluation on consecutive sub-intervals |G' - G| <= sum |l_j|^3 max|g''| / 24
+    <= T dt^2 |a| w^2 / 24 (2nd order: l = ds <= dt; 4th order: sum |l_j|^3 = 0.57 ds^3 per step).  The state must therefore lie,
+    to 1e-8, on the curve {exp(-u x H0) psi0 : |x - G| <= TDEP_MARGIN * that bound}: the distance to the curve is minimised over x.
+    Only the inputs (times, dt, a, w) enter the bound, not the steps the code reports.  A generator frozen at an earlier time misses G
+    by O(a w T^2), far outside."""
+    from scipy.optimize import minimize_scalar
+    td, u, v0, times = case["tdep"], res["u"], res["v0"], case["times"]
+    n0, nw = np.linalg.norm(v0), np.linalg.norm(w)
+    lam, V = np.linalg.eigh(Hd)
+    c0 = V.conj().T @ v0
+    G = tdep_G(td, times[0], t1)
+    delta = TDEP_MARGIN * abs(t1 - times[0]) * case["dt"] ** 2 * abs(td["a"]) * td["w"] ** 2 / 24 + 1e-13
+
+    def dist(x):
+        ref = V @ (np.exp(-u * x * lam) * c0)
+        if case["normalize"]:
+            ref = ref / np.linalg.norm(ref) * n0
+        if case["subtract_E"]:
+            ref = ref * (np.vdot(ref, w) / np.vdot(ref, ref))
+            return float(np.linalg.norm(w - ref) / nw)
+        return float(np.linalg.norm(w - ref) / n0)
+
+    # minimise over y = x - G in [-delta, delta]: Brent's bounded search locates y to ~1.5e-8 |y| + xatol only, a few parabola steps
+    # on dist^2 (quadratic around its minimum) bring y to round-off; every candidate is clipped to the interval, the best one counts
+    f2 = lambda y: dist(G + y) ** 2
+    opt = minimize_scalar(f2, bounds=(-delta, delta), method="bounded", options={"xatol": 1e-15, "maxiter": 500})
+    ys = [-delta, delta, 0.0, float(opt.x)]
+    y = float(opt.x)
+    for h in (1e-5, 1e-6, 1e-7):
+        h = min(h, delta / 4)
+        fm, f0, fp = f2(y - h), f2(y), f2(y + h)
+        curv = fp - 2 * f0 + fm
+        if not curv > 0:
+            break
+        y = min(delta, max(-delta, y - h * (fp - fm) / (2 * curv)))
+        ys.append(y)
+    err, y = min((dist(G + y), y) for y in ys)
+    x = G + y
+    ctx.count("exactness_checked")
+    ctx.count("exactness_tdep_checked")
+    if k == 0:
+        ctx.count(f"exact_tdep:{case['method']}")
+        nsw = sum(o.steps for o in res["outs"]) * (1 if case["order"] == "2nd" else 5)
+        ctx.count(f"exact_tdep:{case['method']}:{'several_sweeps' if nsw >= 2 else 'one_sweep'}")
+    if err > 1e-8:
+        fail("c10:exactness-tdep", f"snapshot {k} (t={t1}): time-dependent generator g(t) H0, g = 1 + {td['a']} sin({td['w']} t), at maximal "
+             f"bond dimension ({case['method']}, {case['order']}, u={u}): distance {err!r} to exp(-u x H0) psi0 for every x within {delta:.3e} "
+             f"of G = int g dt = {G!r} (best x = {x!r}; the plain exact evolution x = G is at distance {dist(G)!r})")
+
+
 # ---- time-dependent generator: convergence at the stated order -----------------------------------------------
 
-def order_case(ctx, rng, quick):
-    """H(t) = Ha + cos(w t) Hb at maximal bond dimension; error vs solve_ivp reference for dt and dt/2"""
+def order_deck(rng, n):
+    """strata of the time-dependent ('order') cases: balanced covering of method x precompute.  Every block of three cases holds
+    every method once (so every run, whatever its seed, judges a genuinely time-dependent generator over several sweeps with
+    '1site', '2site' AND '12site'); in the first block of a pair precompute alternates from a random start, in the second block
+    every method gets the other flag: six cases meet all six combinations.  A free draw of the method left a method out of the
+    three quick-tier cases on most seeds."""
+    out = []
+    while len(out) < n:
+        block = list(METHODS)
+        rng.shuffle(block)
+        start = rng.random() < 0.5
+        flags = {m: (i % 2 == 0) == start for i, m in enumerate(block)}
+        out += [{"method": m, "precompute": flags[m]} for m in block]
+        block = list(METHODS)
+        rng.shuffle(block)
+        out += [{"method": m, "precompute": not flags[m]} for m in block]
+    return out[:n]
+
+
+ORDER_T0 = [0.0, 0.0, 0.25, -0.5]
+
+
+def order_case(ctx, rng, quick, st=None):
+    """H(t) = Ha + cos(w t) Hb at maximal bond dimension over [t0, t0 + T]; error vs solve_ivp reference for dt and dt/2
+    (4 resp. 8 time steps, i.e. always many sweeps after the first evaluation of H).  st: optional stratum {"method",
+    "precompute"} (order_deck).  Returns True when the convergence order was judged, False when the case was dropped."""
     import yastn.tn.mps as mps
     from scipy.integrate import solve_ivp
+    st = st or {}
     family, sym = rng.choice([("Spin12", "dense"), ("Spin12", "Z2"), ("SpinlessFermions", "Z2")])
     N = 3
     case = {"kind": "order", "family": family, "sym": sym, "N": N,
             "terms_a": gen_terms(rng, family, sym, N, cplx=False), "terms_b": gen_terms(rng, family, sym, N, cplx=False),
-            "w": rng.choice([2.0, 3.0, 4.0]), "psi_seed": rng.randrange(1 << 30), "n": rng.choice(admissible_charges(family, sym, N)),
-            "T": 0.5, "method": rng.choice(["1site", "2site", "12site"]),
-            "precompute": rng.random() < 0.5, "hfac": gen_hfac(rng, 1)}
-    guard = 2 * GUARD_S[0 if ctx.quick else 1]   # four tdvp_ runs + four solve_ivp references, regularly 2 - 5 s together
+            "w": rng.choice([2.0, 3.0, 4.0]), "psi_seed": rng.randrange(1 << 30), "n": rng.choice(complete_charges(family, sym, N)),
+            "T": 0.5, "t0": rng.choice(ORDER_T0), "method": st.get("method") or rng.choice(METHODS),
+            "precompute": st["precompute"] if "precompute" in st else rng.random() < 0.5, "hfac": gen_hfac(rng, 1)}
+    guard = 2 * GUARD_S[0 if ctx.quick else 1]   # four tdvp_ runs + one solve_ivp reference, regularly 1 - 4 s together
     try:
         with base.time_limit(guard), WorkGuard():
             res = run_order_case(case)
     except CaseWork as e:
         work_abort(ctx, case, e)
-        return
+        return False
     except base.CaseTimeout:
         ctx.count("case_timeouts")
         ctx.extra["c10_lost_s"] = ctx.extra.get("c10_lost_s", 0) + guard
-        return
+        return False
     ctx.case(case)
     ctx.count("kind:order")
     ctx.count(f"order_precompute:{case['precompute']}")
     if res.get("skip"):
         ctx.count("order_skipped_not_full")
+        return False
+    ctx.count(f"order_judged:{case['method']}")
+    ctx.count(f"order_judged:{case['method']}:precompute={case['precompute']}")
+    judge_order(ctx, case, res)
+    return True
+
+
+def judge_order(ctx, case, res):
+    """convergence at the stated order (shared by run and replay)"""
+    if res.get("err"):
+        ctx.fail("oracle", "c10:exception", res["err"], case=case, concrete=True)
         return
     for order, errs in res["errs"].items():
         e1, e2 = errs
         ctx.count(f"order_checked:{order}")
         want = 4.0 if order == "2nd" else 16.0
         # loose: at least 60 % of the asymptotic gain per halving unless already at round-off level
-        if res["err"]:
-            ctx.fail("oracle", "c10:exception", res["err"], case=case, concrete=True)
-        elif e2 > 1e-10 and e1 / e2 < 0.6 * want:
-            ctx.fail("oracle", f"c10:order-{order}", f"time-dependent generator: error {e1!r} (dt={res['dt']}) -> {e2!r} (dt/2): ratio "
-                     f"{e1 / e2:.2f}, expected about {want} for the {order}-order scheme", case=case, concrete=True)
+        if e2 > 1e-10 and e1 / e2 < 0.6 * want:
+            ctx.fail("oracle", f"c10:order-{order}", f"time-dependent generator ({case['method']}): error {e1!r} (dt={res['dt']}) -> {e2!r} "
+                     f"(dt/2): ratio {e1 / e2:.2f}, expected about {want} for the {order}-order scheme", case=case, concrete=True)
         elif order == "4th" and e1 > res["errs"]["2nd"][0] / 20:
-            ctx.fail("oracle", "c10:order-4th", f"4th-order error {e1!r} at dt={res['dt']} is not far below the 2nd-order error "
-                     f"{res['errs']['2nd'][0]!r} (observed ratio on the unchanged code: 300-500)", case=case, concrete=True)
+            ctx.fail("oracle", "c10:order-4th", f"time-dependent generator ({case['method']}): 4th-order error {e1!r} at dt={res['dt']} is "
+                     f"not far below the 2nd-order error {res['errs']['2nd'][0]!r} (observed ratio on the unchanged code: 300-500)",
+                     case=case, concrete=True)
 
 
 def run_order_case(case):
@@ -639,8 +771,9 @@ def run_order_case(case):
     Had, Hbd = dense_mpo(Ha, ops), dense_mpo(Hb, ops)
     w = case["w"]
     f = lambda t: math.cos(w * t)
-    T = case["T"]
+    T, t0 = case["T"], case.get("t0", 0.0)
     out = {"errs": {}, "err": None, "dt": T / 4}
+    refs = []   # (v0, reference): the four runs start from the same state, the exact time-ordered evolution is integrated once
     for order in ("2nd", "4th"):
         errs = []
         for dt in (T / 4, T / 8):
@@ -652,7 +785,7 @@ def run_order_case(case):
             if not is_full(psi, ops, case["sym"], v0):
                 return {"skip": True}
             try:
-                for _ in mps.tdvp_(psi, lambda t: [Ha, f(t) * Hb], times=(0, T), dt=dt, u=1j, method=case["method"], order=order,
+                for _ in mps.tdvp_(psi, lambda t: [Ha, f(t) * Hb], times=(t0, t0 + T), dt=dt, u=1j, method=case["method"], order=order,
                                    opts_expmv=dict(OPTS_EXPMV), opts_svd={"D_total": 2 ** N, "tol": 1e-14},
                                    precompute=case.get("precompute", False)):
                     pass
@@ -661,9 +794,13 @@ def run_order_case(case):
                 errs.append(float("nan"))
                 continue
             v = dense_mps(psi, ops)
-            sol = solve_ivp(lambda t, y: -1j * ((Had + f(t) * Hbd) @ y), (0, T), v0.astype(complex), method="DOP853", rtol=1e-12, atol=1e-13)
-            ref = sol.y[:, -1]
-            ref = ref / np.linalg.norm(ref)
+            ref = next((r for (x, r) in refs if np.array_equal(x, v0)), None)
+            if ref is None:
+                sol = solve_ivp(lambda t, y: -1j * ((Had + f(t) * Hbd) @ y), (t0, t0 + T), v0.astype(complex), method="DOP853",
+                                rtol=1e-12, atol=1e-13)
+                ref = sol.y[:, -1]
+                ref = ref / np.linalg.norm(ref)
+                refs.append((v0, ref))
             errs.append(float(np.linalg.norm(v - ref)))
         out["errs"][order] = errs
     return out
@@ -827,6 +964,7 @@ def run_case(ctx, case):
     ctx.count(f"sym:{case['family']}:{case['sym']}")
     ctx.count(f"hfac:{hfac_kind(case)}")
     ctx.count(f"stratum:{case.get('stratum', 'free')}")
+    ctx.count(f"generator:{'time_dependent' if case.get('tdep') else 'callable_constant' if case['callable_H'] else 'static'}")
     two = case["method"] == "2site"
     if case["method"] == "12site" and res["mon"] is not None:
         two = any(ev[0] == "enl" and ev[1][2] for (_, _, ev) in res["mon"].log)
@@ -874,8 +1012,10 @@ def run(ctx):
                 "dealt from a balanced deck of 36 combinations and precompute balanced inside every method x subtract_E group (half of "
                 "the '12site' strata instead start from bond dimension 1 on N=2, where the 2-site update is the global evolution), every "
                 "second 'trace' case dealt from the method x subtract_E x precompute deck inside the regime of the conservation clause (real time, truncation that cannot bind; '12site' starts below the "
-                "maximal bond dimension and enlarges bonds), 'order' cases with a time-dependent generator (precompute on/off, "
-                "prefactors). Non-trivial = every case (distinct by full input).")
+                "maximal bond dimension and enlarges bonds), 'order' cases with a time-dependent generator Ha + cos(w t) Hb (method x precompute "
+                "from a balanced deck: every method on every seed; start time 0 or not; prefactors); two strata of every (method, subtract_E) "
+                "group of the exact deck use the time-dependent commuting generator (1 + a sin(w t)) H0. Non-trivial = every case "
+                "(distinct by full input).")
     ctx.notes.append("interpretive decisions: (a) 'bond dimensions are maximal' = at every bond the bond space is the whole left or the "
                      "whole right space of the charge sector (in U(1) sectors with mixed sector-wise maxima 1site TDVP is not exact: "
                      "inherent O(dt^p) error, observed 9e-7 -> 3e-9 for dt=1/8 -> 1/32, 4th order, spinless fermions N=4 n=3); "
@@ -901,11 +1041,16 @@ def run(ctx):
                 break
             st = deck[i] if kind == "exact" else (dict(deck[i], conserve=True) if i % 2 else None)
             run_case(ctx, gen_case(rng, quick, kind, st))
-    for i in range(3 if quick else 20):
+    # time-dependent generator: method x precompute dealt from a balanced deck (every method on every seed); a stratum whose case
+    # was dropped (work / wall-clock guard, sector without a maximal bond dimension) is dealt once more with fresh inputs
+    n_order = 6 if quick else 24
+    for st in order_deck(rng, n_order):
         if elapsed(ctx, t0) > budget:
             ctx.count("order_cases_cut_by_budget")
             break
-        order_case(ctx, rng, quick)
+        if not order_case(ctx, rng, quick, st):
+            ctx.count("order_stratum_redealt")
+            order_case(ctx, rng, quick, st)
     noncanonical_note(ctx)
 
 
@@ -950,9 +1095,7 @@ def replay(ctx, obj):
         return run(ctx)
     if case.get("kind") == "order":
         res = run_order_case(case)
-        for order, (e1, e2) in res.get("errs", {}).items():
-            want = 4.0 if order == "2nd" else 16.0
-            if e2 > 1e-10 and e1 / e2 < 0.6 * want or (order == "4th" and e1 > res["errs"]["2nd"][0] / 20):
-                ctx.fail("oracle", f"c10:order-{order}", f"errors {e1!r} -> {e2!r}", case=case, concrete=True)
+        if not res.get("skip"):
+            judge_order(ctx, case, res)
         return
     run_case(ctx, case)
